@@ -21,7 +21,14 @@ P = {'id': 'C08',
               'fixedcap_stats_at_quiescence',
               'fixedcap_generation_bound_by_steps',
               'fixedcap_code_cfg_wf',
-              'fixedcap_untagged_refuted'],
+              'fixedcap_untagged_refuted',
+              'tagged_generation_monotone',
+              'tagged_pop_last_keeps_generation',
+              'zero_on_free_never_touches_listed_block',
+              'counters_exact_at_quiescence',
+              'generation_reset_refuted',
+              'count_before_cas_refuted',
+              'zero_after_push_refuted'],
  'trusted': ['modelled (M+S): src/memory/lockfree_pool.rs allocate_from_fast_bin / deallocate_to_fast_bin / allocate_new_block and src/memory/five_level_pool.rs '
              'LockFreePool::alloc_from_fast_bin_lockfree / free_to_fast_bin_lockfree (one bin, generation-tagged head, link word inside the block, count, bump '
              'allocation: load + compare-exchange of next_offset in lockfree_pool.rs, one step under the mutex in five_level_pool.rs) as a sequentially consistent small-step machine with one step per shared access; '
